@@ -54,6 +54,14 @@ func TestMain(m *testing.M) {
 type Site struct {
 	Port int    `json:"port"` // index into ports
 	Host string `json:"host"`
+	Bind string `json:"bind,omitempty"` // "bind <ip>" in the site block: its own listening socket on that address
+}
+
+func (s Site) ip() string {
+	if s.Bind != "" {
+		return s.Bind
+	}
+	return "127.0.0.1"
 }
 
 type Client struct {
@@ -125,6 +133,9 @@ func text(c *Case, dir string, gen int, kind string, extra bool, sizeKB int) str
 				inject = "\terrors /nonexistent-dir-xyz/sub/errors.log\n"
 			}
 		}
+		if s.Bind != "" {
+			inject = "\tbind " + s.Bind + "\n" + inject
+		}
 		site(fmt.Sprintf("http://%s:%d", s.Host, ports[s.Port]), i, inject)
 	}
 	if extra {
@@ -160,7 +171,11 @@ func parseBody(b []byte) (gen, site int, ok bool) {
 // request makes one request on a fresh connection and validates the response
 // against the generation it claims to come from.
 func request(useTLS bool, port int, host string, site int, style string, splitMs int, sizes map[int]int) (gen int, errText string) {
-	tcp, err := net.DialTimeout("tcp", fmt.Sprintf("127.0.0.1:%d", port), 10*time.Second)
+	return requestAt("127.0.0.1", useTLS, port, host, site, style, splitMs, sizes)
+}
+
+func requestAt(ip string, useTLS bool, port int, host string, site int, style string, splitMs int, sizes map[int]int) (gen int, errText string) {
+	tcp, err := net.DialTimeout("tcp", fmt.Sprintf("%s:%d", ip, port), 10*time.Second)
 	if err != nil {
 		return -1, "connect: " + err.Error()
 	}
@@ -284,7 +299,7 @@ func runCase(c *Case) (nontrivial bool, classes []string, err error) {
 	// sequential probe of every site of the configuration that should be live
 	probeAll := func(gen int, extra bool, when string) error {
 		for i, s := range c.Sites {
-			g, e := request(c.TLS, ports[s.Port], s.Host, i, "close", 0, sizes)
+			g, e := requestAt(s.ip(), c.TLS, ports[s.Port], s.Host, i, "close", 0, sizes)
 			if e != "" {
 				return fmt.Errorf("%s: site %d (%s:%d): %s", when, i, s.Host, ports[s.Port], e)
 			}
@@ -317,7 +332,7 @@ func runCase(c *Case) (nontrivial bool, classes []string, err error) {
 			s := c.Sites[cl.Site]
 			for n := 0; n < 600 && atomic.LoadInt32(&stop) == 0; n++ {
 				r := record{client: ci, site: cl.Site, start: time.Now()}
-				r.gen, r.err = request(c.TLS, ports[s.Port], s.Host, cl.Site, cl.Style, cl.SplitMs, sizes)
+				r.gen, r.err = requestAt(s.ip(), c.TLS, ports[s.Port], s.Host, cl.Site, cl.Style, cl.SplitMs, sizes)
 				r.end = time.Now()
 				recs[ci] = append(recs[ci], r)
 				if cl.PauseUs > 0 {
@@ -589,11 +604,13 @@ func describe(rls []reloadRec, _ time.Time) string {
 func genCase(t *rapid.T) *Case {
 	c := &Case{Extra0: rapid.Bool().Draw(t, "extra0"), Size0: rapid.SampledFrom([]int{0, 1, 16, 200}).Draw(t, "size0"), TailMs: rapid.IntRange(0, 10).Draw(t, "tail")}
 	layout := rapid.SampledFrom([][]Site{
-		{{0, "a.test"}},
-		{{0, "a.test"}, {0, "b.test"}},
-		{{0, "a.test"}, {1, "b.test"}},
-		{{0, "a.test"}, {0, "b.test"}, {1, "a.test"}},
-		{{0, "a.test"}, {1, "b.test"}, {2, "c.test"}},
+		{{Port: 0, Host: "a.test"}},
+		{{Port: 0, Host: "a.test"}, {Port: 0, Host: "b.test"}},
+		{{Port: 0, Host: "a.test"}, {Port: 1, Host: "b.test"}},
+		{{Port: 0, Host: "a.test"}, {Port: 0, Host: "b.test"}, {Port: 1, Host: "a.test"}},
+		{{Port: 0, Host: "a.test"}, {Port: 1, Host: "b.test"}, {Port: 2, Host: "c.test"}},
+		{{Port: 0, Host: "a.test", Bind: "127.0.0.1"}, {Port: 0, Host: "b.test", Bind: "127.0.0.2"}},
+		{{Port: 0, Host: "a.test", Bind: "127.0.0.1"}, {Port: 0, Host: "b.test", Bind: "127.0.0.2"}, {Port: 1, Host: "c.test", Bind: "127.0.0.1"}},
 	}).Draw(t, "layout")
 	c.Sites = layout
 	nc := rapid.IntRange(1, 8).Draw(t, "clients")
@@ -607,6 +624,9 @@ func genCase(t *rapid.T) *Case {
 		})
 	}
 	c.TLS = rapid.IntRange(0, 3).Draw(t, "tls") == 0
+	if c.Sites[0].Bind != "" {
+		c.TLS = false // per-address HTTPS sites would also need per-address :80 redirect listeners next to the extra site's
+	}
 	c.Imported = rapid.IntRange(0, 3).Draw(t, "imported") == 0
 	if rapid.IntRange(0, 3).Draw(t, "drain") == 0 {
 		// a short drain timeout and one or two clients whose requests outlast it
